@@ -700,6 +700,9 @@ fn prepare_inner(reg: Reg, front: Front, rng: &mut Prng) -> Option<Link> {
             return None;
         }
         let (nk, ak, addr) = dev.session_keys()?;
+        if rng.chance(1, 4) {
+            dev.set_adr(false);
+        }
         return Some(Link { dev, net: Net { nwk: nk, app: ak, addr }, fdown: 0, up_min: 0 });
     }
     let opts = DevOpts { rng_seed: Some(rng.next_u64()), ..Default::default() };
@@ -715,6 +718,11 @@ fn prepare_inner(reg: Reg, front: Front, rng: &mut Prng) -> Option<Link> {
         }
         let _ = link.deliver_mac(&cmds, false, false);
         let _ = link.txn(&[0], 1, false, &Script::silent()); // flush the answers
+    }
+    // one application in four has switched ADR off: what the network commands and what the device answers
+    // are bound to each other all the same
+    if rng.chance(1, 4) {
+        link.dev.set_adr(false);
     }
     Some(link)
 }
